@@ -323,6 +323,9 @@ func C04(c *vk.Ctx) {
 		{Mode: "crl_only", Sig: "verify", Strict: false, Fetch: "actively", Disk: true, TrustA: true, Conf: "none", Ocsp: "noaia"},
 	}
 	hubCampaign(c, hcfgs, c.Pick(1400, 30000), allDownEdges, 60, predC04hub)
+	// only lists of the OTHER CA (or nothing usable) are ever served at the distribution point of c1, while certificates of both
+	// CAs keep being presented: whichever chain a handshake brought along, the other CA never becomes entitled for c1's location
+	hubFocus(c, hcfgs, c.Pick(500, 6000), func(d hubDoc) bool { return d.Signer == "B" || d.Q == "garbage" }, RandomShape, predC04hub)
 	c.Set("traces_validated_against_impl", int64(n))
 	c.Set("exhaustive", c.Thorough())
 	c.Set("spec", "Authz.tla: the decision table signer(7) x AKI form(6) x keyUsage(3) x algorithm x mutation site(5); OnlyEntitled (mechanism in force => requirement allows it) and Complete proved on every row; CrlReader.tla DigestExact for 'exactly the signed portion'")
@@ -469,6 +472,16 @@ func c04RefreshSweep(c *vk.Ctx, rng *mrand.Rand) int {
 
 // predC04hub: under 'verify' only entitled, verified CRLs are ever in force - on every intake path of a history.
 func predC04hub(c *vk.Ctx, o *hubObs) {
+	if o.Cfg.Sig == "verify" && o.Loaded != nil && o.Exp.Loaded != nil && o.Op[0] != "cleanup" {
+		// model and code agreed on every observable before this step. If a location counts as loaded now although the only
+		// document fetched there in this step is one that policy rejects, that document came into force.
+		for _, l := range []string{"D", "U"} {
+			if o.Loaded[l] && !o.Exp.Loaded[l] && o.Exp.Fetch[l] > 0 && !o.Exp.Inforce[l] {
+				c.Violation(fmt.Sprintf("history:rejected-crl-in-force:loc=%s:step=%v", l, o.Op[0]),
+					fmt.Sprintf("step %v fetched at %s a CRL that no entitled issuer signed for this context, and the location is loaded afterwards; cfg=%s", o.Op[0], l, o.Cfg), hubReplay(o))
+			}
+		}
+	}
 	if o.Op[0] != "handshake" || o.Cfg.Sig != "verify" || !realDecided(o.Verdict) || o.Exp.Cause != "crl" {
 		return
 	}
